@@ -395,5 +395,8 @@ class Gen(object):
         self.emit("send", c.name, self.decorate(msg))
 
 
-def generate(seed, **kw):
+def generate(seed, style=None, **kw):
+    if style == "life":
+        from .lifegen import LifeGen
+        return LifeGen(seed, **kw).gen()
     return Gen(seed, **kw).gen()
